@@ -604,6 +604,10 @@ func (n *ChanType) String() string {
 	if n.Direction == SendDirection {
 		s += "<-"
 	}
+	if e, ok := n.ElementType.(*ChanType); ok && n.Direction == NoDirection && e.Direction == ReceiveDirection {
+		// "chan <-chan T" would be read as "chan<- chan T".
+		return s + " (" + e.String() + ")"
+	}
 	return s + " " + n.ElementType.String()
 }
 
